@@ -16,6 +16,10 @@ Variable M : ir_module.
 Variable aeval : string -> env -> option value.
 Variable exact_types token_dict : list (string * N).
 Hypothesis Hnolr : no_left_rec M = true.
+(* the error-mode flag of the run: any value if the module has no *_without_invalid method, off otherwise *)
+Variable b : bool.
+Hypothesis Hflag : b = false \/ no_wi M = true.
+Notation stable := (stable b).
 
 Notation runU := (run K toks false false M aeval exact_types token_dict).
 Notation runC := (run K toks false true M aeval exact_types token_dict).
@@ -35,13 +39,13 @@ Definition unc_inv (f : nat) (n : string) (a : option string) (s : pstate) : R :
 
 Definition entry_valid (F : nat) (k : ckey) (r : value * nat) : Prop :=
   let '(p, n, a) := k in
-  exists f0, forall t, pos t = p -> invalid t = false -> F <= fetched t ->
-    exists t', unc_inv f0 n a t = (Ok (fst r), t') /\ pos t' = snd r /\ fetched t' = fetched t /\ invalid t' = false.
+  exists f0, forall t, pos t = p -> invalid t = b -> F <= fetched t ->
+    exists t', unc_inv f0 n a t = (Ok (fst r), t') /\ pos t' = snd r /\ fetched t' = fetched t /\ invalid t' = b.
 Definition cache_valid (c : list (ckey * (value * nat))) (F : nat) : Prop :=
   forall k r, cache_find k c = Some r -> entry_valid F k r.
 
 Definition sim (s1 s2 : pstate) : Prop :=
-  pos s1 = pos s2 /\ fetched s1 = fetched s2 /\ invalid s1 = false /\ invalid s2 = false /\ cache_valid (cache s1) (fetched s1).
+  pos s1 = pos s2 /\ fetched s1 = fetched s2 /\ invalid s1 = b /\ invalid s2 = b /\ cache_valid (cache s1) (fetched s1).
 
 (* the cached result rC matches the uncached result rU *)
 Definition matches (rU rC : R) : Prop :=
@@ -54,9 +58,9 @@ Qed.
 Lemma cache_valid_mono c F F' : F <= F' -> cache_valid c F -> cache_valid c F'.
 Proof. intros Hle H k r Hk. exact (entry_valid_mono _ _ _ _ Hle (H k r Hk)). Qed.
 
-Lemma ckey_eqb_eq a b : ckey_eqb a b = true -> a = b.
+Lemma ckey_eqb_eq (a c : ckey) : ckey_eqb a c = true -> a = c.
 Proof.
-  destruct a as [[m1 n1] a1], b as [[m2 n2] a2]. unfold ckey_eqb. intros H.
+  destruct a as [[m1 n1] a1], c as [[m2 n2] a2]. unfold ckey_eqb. intros H.
   apply andb_prop in H as [H H3]. apply andb_prop in H as [H1 H2].
   apply Nat.eqb_eq in H1. apply String.eqb_eq in H2. subst.
   destruct a1, a2; cbn in H3; try discriminate; [apply String.eqb_eq in H3; subst|]; reflexivity.
@@ -121,9 +125,9 @@ Lemma sim_with_pos p s1 s2 : sim s1 s2 -> sim (with_pos s1 p) (with_pos s2 p).
 Proof. intros (Hp & Hf & Hi1 & Hi2 & Hc). unfold sim. cbn. auto. Qed.
 Lemma sim_with_pos_S s1 s2 : sim s1 s2 -> sim (with_pos s1 (S (pos s1))) (with_pos s2 (S (pos s2))).
 Proof. intros H. pose proof H as (Hp & _). rewrite Hp. apply sim_with_pos. exact H. Qed.
-Lemma sim_flag_off s1 s2 (b : bool) : sim s1 s2 ->
-  sim (if b then with_invalid s1 false else s1) (if b then with_invalid s2 false else s2).
-Proof. intros (Hp & Hf & Hi1 & Hi2 & Hc). destruct b; unfold sim; cbn; auto. Qed.
+Lemma sim_restore m s1 s2 : sim s1 s2 ->
+  sim (if m_without_invalid m then with_invalid s1 b else s1) (if m_without_invalid m then with_invalid s2 b else s2).
+Proof. intros (Hp & Hf & Hi1 & Hi2 & Hc). destruct (m_without_invalid m); unfold sim; cbn; auto. Qed.
 
 Lemma matches_raise e s1 s2 : matches (Raise e, s2) (Raise e, s1).
 Proof. split; [reflexivity|]. intros v [=]. Qed.
@@ -269,13 +273,13 @@ Lemma last_tok_sim s1 s2 : sim s1 s2 -> last_tok K toks s1 = last_tok K toks s2.
 Proof. intros (Hp & _). unfold last_tok. rewrite Hp. reflexivity. Qed.
 
 Lemma run_alts_sim m mark start_tok alts : forall e0 s1 s2, sim s1 s2 ->
-  done (raltsU m mark start_tok false alts e0 s2) ->
-  matches (raltsU m mark start_tok false alts e0 s2) (raltsC m mark start_tok false alts e0 s1).
+  done (raltsU m mark start_tok b alts e0 s2) ->
+  matches (raltsU m mark start_tok b alts e0 s2) (raltsC m mark start_tok b alts e0 s1).
 Proof.
   induction alts as [|a alts IHa]; intros e0 s1 s2 Hs Hd; cbn [run_alts] in *.
-  - apply matches_ok. apply sim_flag_off. exact Hs.
+  - apply matches_ok. apply sim_restore. exact Hs.
   - pose proof Hs as (Hp & Hf & Hi1 & Hi2 & Hc). rewrite Hi1. rewrite Hi2 in Hd |- *.
-    destruct (a_guard a && negb false).
+    destruct (a_guard a && negb b).
     + apply IHa; [apply sim_with_pos; exact Hs|exact Hd].
     + assert (H1 : fst (fst (rconjsU (a_conjs a) e0 s2)) <> OutOfFuel).
       { destruct (rconjsU (a_conjs a) e0 s2) as [[[v| |] e] s']; cbn in *; [discriminate|discriminate|exact Hd]. }
@@ -285,9 +289,9 @@ Proof.
       * specialize (Hok w eq_refl). cbn in Hok. destruct (truthy w).
         -- rewrite (last_tok_sim _ _ Hok). destruct (a_locations a && _); [apply matches_raise|].
            destruct (aeval (a_action a) _); [|apply matches_raise].
-           apply matches_ok. apply sim_flag_off. exact Hok.
+           apply matches_ok. apply sim_restore. exact Hok.
         -- destruct (a_has_cut a && _).
-           ++ apply matches_ok. apply sim_flag_off. apply sim_with_pos. exact Hok.
+           ++ apply matches_ok. apply sim_restore. apply sim_with_pos. exact Hok.
            ++ apply IHa; [apply sim_with_pos; exact Hok|exact Hd].
       * apply matches_raise.
       * exfalso. apply H1. reflexivity.
@@ -302,7 +306,7 @@ Lemma run_loop_sim m a : forall fuel mark start_tok children e0 s1 s2, sim s1 s2
 Proof.
   induction fuel as [|f IHf]; intros mark start_tok children e0 s1 s2 Hs Hd; cbn [run_loop] in *; [exfalso; apply Hd; reflexivity|].
   pose proof Hs as (Hp & Hf & Hi1 & Hi2 & Hc). rewrite Hi1. rewrite Hi2 in Hd |- *.
-  destruct (a_guard a && negb false); [apply matches_ok; apply sim_with_pos; exact Hs|].
+  destruct (a_guard a && negb b); [apply matches_ok; apply sim_with_pos; exact Hs|].
   assert (H1 : fst (fst (rconjsU (a_conjs a) e0 s2)) <> OutOfFuel).
   { destruct (rconjsU (a_conjs a) e0 s2) as [[[v| |] e] s']; cbn in *; [discriminate|discriminate|exact Hd]. }
   destruct (run_conjs_sim _ e0 _ _ Hs H1) as (Ho & He & Hok). revert Hd.
@@ -317,55 +321,59 @@ Proof.
   - exfalso. apply H1. reflexivity.
 Qed.
 
-Lemma run_body_sim fuel m s1 s2 : sim s1 s2 ->
+Lemma enter_same m (st : pstate) : wi_ok b m -> invalid st = b ->
+  (if m_without_invalid m then with_invalid st false else st) = st.
+Proof.
+  intros [Hb0|Hm] Hi.
+  - destruct (m_without_invalid m); [|reflexivity]. destruct st as [p0 f0 c0 i0 e0]; cbn in *. rewrite Hi, Hb0. reflexivity.
+  - rewrite Hm. reflexivity.
+Qed.
+
+Lemma run_body_sim fuel m s1 s2 : wi_ok b m -> sim s1 s2 ->
   done (run_body K toks false false M aeval exact_types token_dict recU fuel m s2) ->
   matches (run_body K toks false false M aeval exact_types token_dict recU fuel m s2)
           (run_body K toks false true M aeval exact_types token_dict recC fuel m s1).
 Proof.
-  intros Hs Hd. unfold run_body in *. pose proof Hs as (Hp & Hf & Hi1 & Hi2 & Hc). rewrite Hi1. rewrite Hi2 in Hd |- *.
-  set (t1 := if m_without_invalid m then with_invalid s1 false else s1).
-  set (t2 := if m_without_invalid m then with_invalid s2 false else s2) in *.
-  assert (Ht : sim t1 t2) by (apply sim_flag_off; exact Hs).
-  assert (Hpt : pos t1 = pos t2) by (exact (proj1 Ht)).
-  rewrite Hpt.
+  intros Hm Hs Hd. unfold run_body in *. pose proof Hs as (Hp & Hf & Hi1 & Hi2 & Hc). rewrite Hi1. rewrite Hi2 in Hd |- *.
+  rewrite (enter_same m s1 Hm Hi1). rewrite (enter_same m s2 Hm Hi2) in Hd |- *. rewrite Hp.
   assert (Hgo : forall start_tok u1 u2, sim u1 u2 ->
     done (if m_loop m
      then match m_alts m with
-          | [a] => match rloopU fuel m a (pos t2) start_tok [] [] u2 with
-                   | (Ok v, st2) => (Ok (loop_ret m v), if m_without_invalid m then with_invalid st2 false else st2)
+          | [a] => match rloopU fuel m a (pos s2) start_tok [] [] u2 with
+                   | (Ok v, st2) => (Ok (loop_ret m v), if m_without_invalid m then with_invalid st2 b else st2)
                    | other => other end
           | _ => (Raise XAssertion, u2) end
-     else raltsU m (pos t2) start_tok false (m_alts m) [] u2) ->
+     else raltsU m (pos s2) start_tok b (m_alts m) [] u2) ->
     matches
     (if m_loop m
      then match m_alts m with
-          | [a] => match rloopU fuel m a (pos t2) start_tok [] [] u2 with
-                   | (Ok v, st2) => (Ok (loop_ret m v), if m_without_invalid m then with_invalid st2 false else st2)
+          | [a] => match rloopU fuel m a (pos s2) start_tok [] [] u2 with
+                   | (Ok v, st2) => (Ok (loop_ret m v), if m_without_invalid m then with_invalid st2 b else st2)
                    | other => other end
           | _ => (Raise XAssertion, u2) end
-     else raltsU m (pos t2) start_tok false (m_alts m) [] u2)
+     else raltsU m (pos s2) start_tok b (m_alts m) [] u2)
     (if m_loop m
      then match m_alts m with
-          | [a] => match rloopC fuel m a (pos t2) start_tok [] [] u1 with
-                   | (Ok v, st2) => (Ok (loop_ret m v), if m_without_invalid m then with_invalid st2 false else st2)
+          | [a] => match rloopC fuel m a (pos s2) start_tok [] [] u1 with
+                   | (Ok v, st2) => (Ok (loop_ret m v), if m_without_invalid m then with_invalid st2 b else st2)
                    | other => other end
           | _ => (Raise XAssertion, u1) end
-     else raltsC m (pos t2) start_tok false (m_alts m) [] u1)).
+     else raltsC m (pos s2) start_tok b (m_alts m) [] u1)).
   { intros start_tok u1 u2 Hu Hdu. destruct (m_loop m).
     - destruct (m_alts m) as [|a [|a2 rest]]; try apply matches_raise.
-      assert (H1 : done (rloopU fuel m a (pos t2) start_tok [] [] u2)).
-      { destruct (rloopU fuel m a (pos t2) start_tok [] [] u2) as [[v| |] s']; cbn in *; [discriminate|discriminate|exact Hdu]. }
+      assert (H1 : done (rloopU fuel m a (pos s2) start_tok [] [] u2)).
+      { destruct (rloopU fuel m a (pos s2) start_tok [] [] u2) as [[v| |] s']; cbn in *; [discriminate|discriminate|exact Hdu]. }
       destruct (run_loop_sim m a fuel _ _ _ _ _ _ Hu H1) as (Ho & Hok).
-      destruct (rloopU fuel m a (pos t2) start_tok [] [] u2) as [[w| |] v2], (rloopC fuel m a (pos t2) start_tok [] [] u1) as [oc v1];
+      destruct (rloopU fuel m a (pos s2) start_tok [] [] u2) as [[w| |] v2], (rloopC fuel m a (pos s2) start_tok [] [] u1) as [oc v1];
         cbn in Ho; subst oc.
-      + apply matches_ok. apply sim_flag_off. exact (Hok w eq_refl).
+      + apply matches_ok. apply sim_restore. exact (Hok w eq_refl).
       + apply matches_raise.
       + exfalso. apply H1. reflexivity.
     - apply run_alts_sim; assumption. }
   destruct (m_locations m).
-  - destruct (peek_sim _ _ Ht) as (P1 & P2). destruct (peek toks t1) as [o1 u1], (peek toks t2) as [o2 u2]. cbn in P1, P2. subst o1.
+  - destruct (peek_sim _ _ Hs) as (P1 & P2). destruct (peek toks s1) as [o1 u1], (peek toks s2) as [o2 u2]. cbn in P1, P2. subst o1.
     destruct o2 as [tk|]; [|apply matches_raise]. apply Hgo; [apply P2; discriminate|exact Hd].
-  - apply Hgo; [exact Ht|exact Hd].
+  - apply Hgo; [exact Hs|exact Hd].
 Qed.
 End Open.
 
@@ -381,7 +389,8 @@ Proof.
             done (run_body K toks false false M aeval exact_types token_dict (runU f) f m t2) ->
             matches (run_body K toks false false M aeval exact_types token_dict (runU f) f m t2)
                     (run_body K toks false true M aeval exact_types token_dict (runC f) f m t1)).
-  { intros t1 t2 Ht Hdt. apply run_body_sim; [|exact Ht|exact Hdt]. intros n0 u1 u2 Hu Hdu. apply IH; assumption. }
+  { intros t1 t2 Ht Hdt. apply run_body_sim; [|exact (find_meth_wi M b Hflag _ _ F)|exact Ht|exact Hdt].
+    intros n0 u1 u2 Hu Hdu. apply IH; assumption. }
   destruct (m_deco m) eqn:D; [|contradiction|].
   - (* @memoize *)
     assert (Hshape : forall s, unc_inv (S f) n None s =
@@ -391,7 +400,7 @@ Proof.
                   = unc_inv (S f) n None s2) by (rewrite Hshape; reflexivity).
     rewrite Heq in Hd |- *.
     apply (memo_sim n n None (S f) _ _ Hshape).
-    + apply (stable_ext _ (runU (S f) n)); [intros s; apply (unc_inv_meth _ _ _ _ F)|]. apply run_stable. exact Hnolr.
+    + apply (stable_ext _ (runU (S f) n)); [intros s; apply (unc_inv_meth _ _ _ _ F)|]. apply run_stable; [exact Hnolr|exact Hflag].
     + intros f1 s Hd0 Hd1. rewrite !(unc_inv_meth _ _ _ _ F) in *.
       destruct (le_ge_dec f1 (S f)) as [Hle|Hge].
       * symmetry. apply (fuel_mono K toks false false M aeval exact_types token_dict f1 (S f) n Hle s Hd1).
